@@ -391,6 +391,9 @@ class _AtKey(object):
 # ---------------------------------------------------------------------- constructors
 
 
+NARROWED = []  # float64 NumPy scalars that were converted to (float32) JAX arrays
+
+
 def as_arr(x, allow_none=False):
     if isinstance(x, Arr):
         return x
@@ -423,6 +426,12 @@ def as_arr(x, allow_none=False):
         elif all(it.dtype in ("int", "bool") for it in items):
             dt = "int"
         return Arr((len(items),) + sh, el, dt)
+    if type(x).__name__ == "NpScalar":
+        # a NumPy floating scalar turned into a JAX array: float32 unless jax_enable_x64 (off by default), so a float64
+        # value is narrowed here -- recorded for the checks that care about which values a comparison can still separate
+        if getattr(x, "__axi_kind__", None) == "float64":
+            NARROWED.append(x)
+        return Arr((), [x.v], "float")
     if hasattr(x, "__iter__") and not isinstance(x, (str, bytes, dict)):
         return as_arr(list(x))
     raise Unsupported("cannot convert %s to an abstract array" % type(x).__name__)
